@@ -116,6 +116,9 @@ func v14Requests() []*v14Request {
 		{name: "entry-lo10+leaf-lo1-mtu", paths: []*sdcpb.Path{vPath(vPE("interface", "name", "lo10")), vPath(vPE("interface", "name", "lo1"), vPE("mtu"))}},
 		{name: "known+unknown", paths: []*sdcpb.Path{vPath(vPE("interface", "name", "lo1")), vPath(vPE("nosuchcontainer"))}, unknown: true},
 		{name: "unknown-key-name", paths: []*sdcpb.Path{vPath(vPE("interface", "nosuchkey", "lo1"))}, unknown: true, unknownKey: true},
+		// the unknown path at every position of a path set (first, middle), not only last
+		{name: "unknown+known", paths: []*sdcpb.Path{vPath(vPE("nosuchcontainer")), vPath(vPE("interface", "name", "lo1"))}, unknown: true},
+		{name: "known+unknown-leaf+known", paths: []*sdcpb.Path{vPath(vPE("interface", "name", "lo10")), vPath(vPE("interface", "name", "lo1"), vPE("nosuchleaf")), vPath(vPE("interface", "name", "lo1"), vPE("mtu"))}, unknown: true},
 	}
 }
 
